@@ -252,12 +252,25 @@ def record_footprint_case(case):
     idx = sorted([r for r in reqs if r["kind"] == "index"], key=lambda r: r["i"])
     order = wins + idx + idx[::-1] + idx[::2]
     stream.recording = True
+    impl = []
+    try:
+        from nptdms import _verif
+        _verif.set_sink(lambda rr: impl.append(rr) if rr.get("event") == "channel_window" else None)
+        hooked = _verif.enabled()
+    except ImportError:
+        _verif, hooked = None, False
+    seg_of_pos = {es["pos"]: j + 1 for j, es in enumerate(e.segs)}
     for r in order:
         stream.take()
+        del impl[:]
         perform(ch, r)
         st = dict(r)
         st["reads"] = stream.take()
+        st["hooked"] = bool(hooked)
+        st["impl"] = [[seg_of_pos.get(x["segment_position"], 0), x["chunk_offset"], max(x["num_chunks"], 0)] for x in impl]
         steps.append(st)
+    if _verif is not None:
+        _verif.set_sink(None)
     f.close()
     trace = {"id": case["id"], "il": bool(rec["shape"]["il"]), "segs": rec["shape"]["segs"],
              "lay": layout_of(fd, e, info["xtype"]), "steps": steps,
